@@ -91,7 +91,7 @@ func (e *Engine) havocBase(st *State, elem types.Type, base *smt.Term) {
 
 var intrinsicNames = map[string]bool{"vAssume": true, "vAssert": true, "vRequires": true, "vEnsures": true, "vModifies": true,
 	"vNondet": true, "vOld": true, "vForall": true, "vInvariant": true, "vBody": true, "vStep": true, "vCallCount": true,
-	"vCallArg": true, "vSameSlice": true, "vFresh": true}
+	"vCallArg": true, "vSameSlice": true, "vFresh": true, "vSeparate": true}
 
 func constString(v ssa.Value) string {
 	if c, ok := v.(*ssa.Const); ok && c.Value != nil && c.Value.Kind() == constant.String {
@@ -224,6 +224,9 @@ func (e *Engine) intrinsic(st *State, fn *ssa.Function, name string, args []Valu
 		// vSameSlice(a, b []T) bool : same backing position, length (aliasing view), not content
 		a, b := args[0], args[1]
 		return boolV(c.And(c.Eq(a.L[0], b.L[0]), c.Eq(a.L[1], b.L[1]), c.Eq(a.L[2], b.L[2]))), st, true
+	case "vSeparate":
+		// vSeparate(a, b): the two slices/strings live in different backing arrays
+		return boolV(c.Or(c.Ne(args[0].L[0], args[1].L[0]), c.Eq(args[0].L[0], e.k64(0)))), st, true
 	case "vFresh":
 		// vFresh(p) : p designates storage allocated during this execution
 		a0 := e.unboxAny(st, args[0]).L[0]
